@@ -307,3 +307,24 @@ Section C.
     In (OEnq s i b) (snd (radsrv md5 rx cfg fs st h c now rnd)) -> forwarded md5 rx cfg fs st h c rnd s i b.
   Proof. apply radsrv_forward. Qed.
 End C.
+
+Section T.
+  Variable md5 : bytes -> bytes.
+  Variable rx : N -> bytes -> option (list (Z * Z)).
+  Variable cfg : config.
+  Variable fs : N -> bool.
+
+  (* C13: a request is placed in a server table only if its TTL (looked up after the client's rewriteIn) is not
+     exceeded: absent, or non-zero after the decrement *)
+  Theorem forward_ttl_alive st h c now rnd s i b :
+    In (OEnq s i b) (snd (radsrv md5 rx cfg fs st h c now rnd)) ->
+    exists r0 msg a1 ttlres a2,
+      get_rq st h = Some r0 /\
+      buf2radmsg md5 (match rq_buf r0 with Some x => x | None => [] end) (cc_secret (clconf_of cfg c)) None = Some msg /\
+      dorewrite rx (m_attrs msg) (cc_rwin (clconf_of cfg c)) = Some a1 /\
+      checkttl (o_ttl0 (cf_opt cfg)) (o_ttl1 (cf_opt cfg)) a1 = (ttlres, a2) /\ ttlres <> 0.
+  Proof.
+    intro H. destruct (radsrv_forward md5 rx cfg fs _ _ _ _ _ _ _ _ H).
+    exists fw_r0, fw_msg, fw_a1, fw_ttlres, fw_a2. destruct fw_ttl as [T1 T2]. repeat split; assumption.
+  Qed.
+End T.
